@@ -8,15 +8,16 @@ def run(tier):
     run.confirm_known()
     conds = []
     to = 600 if tier == "quick" else 3600
-    # (spec, ops, targets, split the first op over parallel conditions?)
+    # (spec, ops, target word indices, split the first op over parallel conditions?); the target lists contain a word that is a
+    # strict prefix of a sentence (prefix: 2 = "xy", rec: 2 = "a=", list: 3 = "a,") so that the prefix-mode observations are non-empty
     if tier == "quick":
-        plan = [("amb", 2, 2, True), ("prefix", 1, 2, False), ("open", 1, 1, False), ("rec", 1, 1, False)]
+        plan = [("amb", 2, [0, 1], True), ("prefix", 1, [0, 2], False), ("open", 1, [0], False), ("rec", 1, [2], False)]
     else:
-        plan = [("amb", 3, 2, True), ("prefix", 2, 2, True), ("open", 2, 2, True), ("rec", 2, 1, True), ("list", 2, 1, True)]
+        plan = [("amb", 3, [0, 1], True), ("prefix", 2, [0, 2, 3], True), ("open", 2, [0, 1], True), ("rec", 2, [0, 2], True), ("list", 2, [0, 3], True)]
     for spec, nops, targets, split in plan:
-        for target in range(targets):
+        for ti, target in enumerate(targets):
             for op0 in (range(9) if split else [-1]):
-                conds.append(Cond("h_parse_hist.py", "history_independent", to, twin="reach" if (target == 0 and op0 in (-1, 0) and spec in ("amb", "prefix")) else None,
+                conds.append(Cond("h_parse_hist.py", "history_independent", to, twin="reach" if (ti == 0 and op0 in (-1, 0) and spec in ("amb", "prefix")) else None,
                                   path_timeout=to / 2, env={"H_SPEC": spec, "H_OPS": str(nops), "H_TARGET": str(target), "H_OP0": str(op0)}))
     # API level: what Fandango.parse() filters by must not depend on earlier fuzz()/init_population() calls with extra constraints
     conds.append(Cond("h_api.py", "calls_are_independent", to, twin="reach", env={"H_CALLS": "2" if tier == "quick" else "3"}))
